@@ -788,6 +788,9 @@ func corpusGP(cfg *config) []string {
 		"osfs l:" + hexStr("GOPR0001.mp4") + ":1646370367,s:" + hexStr("GOPR0001.mp4") + ",d,h:" + hexStr("GOPR0001.mp4") + ":5:777777777,s:" + hexStr("GOPR0001.mp4") + ",r:" + hexStr("GOPR0001.mp4") + ",s:" + hexStr("GOPR0001.mp4"),
 		"osfs w:" + hexStr("a.mp4") + ",h:" + hexStr("a.mp4") + ":1111111:2222222,s:" + hexStr("a.mp4") + ",t:" + hexStr("gopro-process-") + ",d,r:" + hexStr("a.mp4") + ",s:" + hexStr("a.mp4"),
 	}
+	// a fixed input (-i logo.png) before the slot the concat list goes into
+	ops = append(ops, "proc L="+strings.Join([]string{hexStr("GOPR0001.mp4") + ":f:1001", hexStr("GP010001.mp4") + ":f:1002"}, ",")+
+		" S="+hexStr(".")+" O=- T=N,L"+hexStr("-JOINED")+",E A="+hexList([]string{"-y", "-i", "logo.png", "-f", "concat", "-safe", "0", "-i", "", "-filter_complex", "overlay=10:10", "-c:a", "copy"})+" K=~ W=0 F=- X=~")
 	// a directory of exactly 256 entries, then of 512 (a listing read in batches must not trip over a
 	// whole number of batches), and a file dated exactly the epoch
 	var many []string
